@@ -22,6 +22,7 @@ FULL-STRENGTH STATEMENTS (hold iff `codeCfg.recheck = true`, see `code_safe`):
 -/
 import LinVerif.Lemmas.C02Read
 import LinVerif.Lemmas.C02TokStep
+import LinVerif.Lemmas.C02Cur
 import LinVerif.Generated.C02
 
 namespace LinVerif.Props.C02
@@ -32,12 +33,15 @@ open LinVerif.VersionSet LinVerif.TableCache LinVerif.Lemmas.C02
 /-- the model variant the current source selects -/
 def codeCfg (threshold : Nat) (rollupOn : Bool) : Cfg :=
   { recheck := Generated.C02.removeVersionRechecksRef, cloneLocked := Generated.C02.commitCloneUnderLock,
-    threshold := threshold, rollupOn := rollupOn }
+    allocLocked := Generated.C02.allocUnderCommitLock, threshold := threshold, rollupOn := rollupOn }
 
 /-- the current source re-checks the refcount in `removeVersion` (fix b108b0f) -/
 theorem source_rechecks : Generated.C02.removeVersionRechecksRef = true := rfl
 /-- the current source takes the commit's snapshot and clones inside the version-set mutex -/
 theorem source_clone_locked : Generated.C02.commitCloneUnderLock = true := rfl
+/-- the current source allocates table numbers under the version-set mutex -/
+theorem source_alloc_locked : Generated.C02.allocUnderCommitLock = true := rfl
+theorem tie_rollupJob : Generated.C02.rollupCalls = Code.rollupJob := rfl
 theorem tie_commitOutsideLock : Generated.C02.commitOutsideLock = [] := rfl
 theorem tie_commitInsideLock : Generated.C02.commitInsideLock =
     ["vs.persistEditLogs", "familyVersion.GetSnapshot", "snapshot.GetCurrent().Clone", "editLog.apply",
@@ -79,33 +83,34 @@ theorem reachable_run {cfg : Cfg} {v0 f0 : Nat} {acts : List Act} {s s' : St}
     next => cases hr
 
 /-- `Safe` holds in every state of every schedule (variant with the re-check). -/
-theorem safe_invariant {cfg : Cfg} {v0 f0 : Nat} {s : St} (hr : cfg.recheck = true) (hcl : cfg.cloneLocked = true)
-    (h : Reachable cfg v0 f0 s) : Safe s := safe_reachable hr hcl h
+theorem safe_invariant {cfg : Cfg} {v0 f0 : Nat} {s : St} (hr : cfg.recheck = true) (hcl : cfg.cloneLocked = true) (hal : cfg.allocLocked = true)
+    (h : Reachable cfg v0 f0 s) : Safe s := safe_reachable hr hcl hal h
 
 /-- if the current source re-checks, every schedule of the code's own model variant is safe -/
 theorem code_safe {t : Nat} {ro : Bool} {v0 f0 : Nat} {s : St}
     (hfact : Generated.C02.removeVersionRechecksRef = true) (hfact2 : Generated.C02.commitCloneUnderLock = true)
+    (hfact3 : Generated.C02.allocUnderCommitLock = true)
     (h : Reachable (codeCfg t ro) v0 f0 s) : Safe s :=
-  safe_reachable (cfg := codeCfg t ro) hfact hfact2 h
+  safe_reachable (cfg := codeCfg t ro) hfact hfact2 hfact3 h
 
 /-- UNCONDITIONAL for the current source: every schedule of the model variant selected by the
 regenerated facts is safe (any compaction threshold, rollup on or off, any first ids). -/
 theorem safe_current_source {t : Nat} {ro : Bool} {v0 f0 : Nat} {s : St}
     (h : Reachable (codeCfg t ro) v0 f0 s) : Safe s :=
-  code_safe source_rechecks source_clone_locked h
+  code_safe source_rechecks source_clone_locked source_alloc_locked h
 
 /-- `version.ref` = number of open snapshots on the version (the current one gets no extra count) -/
-theorem ref_counts_open_snapshots {cfg : Cfg} {v0 f0 : Nat} {s : St} (hr : cfg.recheck = true) (hcl : cfg.cloneLocked = true)
+theorem ref_counts_open_snapshots {cfg : Cfg} {v0 f0 : Nat} {s : St} (hr : cfg.recheck = true) (hcl : cfg.cloneLocked = true) (hal : cfg.allocLocked = true)
     (h : Reachable cfg v0 f0 s) (v : Nat) : s.ref v = (cntOpen s.snap v s.nSnap : Int) :=
-  (safe_reachable hr hcl h).ref_count v
+  (safe_reachable hr hcl hal h).ref_count v
 
 /-- every open snapshot: version registered, all its tables in the directory, retained readers mapped -/
-theorem open_snapshot_protected {cfg : Cfg} {v0 f0 : Nat} {s : St} (hr : cfg.recheck = true) (hcl : cfg.cloneLocked = true)
+theorem open_snapshot_protected {cfg : Cfg} {v0 f0 : Nat} {s : St} (hr : cfg.recheck = true) (hcl : cfg.cloneLocked = true) (hal : cfg.allocLocked = true)
     (h : Reachable cfg v0 f0 s) (i : Nat) (hi : i < s.nSnap) (ho : (s.snap i).st = .opened) :
     (s.snap i).ver ∈ s.active ∧
     (∀ f ∈ (s.ver (s.snap i).ver).nos, f ∈ s.disk) ∧
     (∀ f ∈ (s.snap i).held, (s.cref f).isSome = true) := by
-  have hs := safe_reachable hr hcl h
+  have hs := safe_reachable hr hcl hal h
   have hact := hs.open_active i hi ho
   refine ⟨hact, hs.files_on_disk _ hact, ?_⟩
   intro f hf
@@ -116,13 +121,13 @@ theorem open_snapshot_protected {cfg : Cfg} {v0 f0 : Nat} {s : St} (hr : cfg.rec
 unfinished writer (pending output already created), by a pending rollup — is in the directory,
 and every reader retained by an open snapshot is mapped. (A step that deleted or unmapped one
 would produce a reachable state violating this.) -/
-theorem no_needed_file_deleted {cfg : Cfg} {v0 f0 : Nat} {s : St} (hr : cfg.recheck = true) (hcl : cfg.cloneLocked = true)
+theorem no_needed_file_deleted {cfg : Cfg} {v0 f0 : Nat} {s : St} (hr : cfg.recheck = true) (hcl : cfg.cloneLocked = true) (hal : cfg.allocLocked = true)
     (h : Reachable cfg v0 f0 s) :
     (∀ i, i < s.nSnap → (s.snap i).st = .opened → ∀ f ∈ (s.ver (s.snap i).ver).nos, f ∈ s.disk) ∧
     (∀ j, j < s.nJob → outOnDisk (s.job j).pc = true → ∀ f ∈ outNo (s.job j), f ∈ s.disk ∧ f ∈ s.pending) ∧
     (∀ f ∈ (s.ver s.cur).rollup, f ∈ s.disk) ∧
     (∀ i, i < s.nSnap → (s.snap i).st = .opened → ∀ f ∈ (s.snap i).held, s.cref f ≠ none) := by
-  have hs := safe_reachable hr hcl h
+  have hs := safe_reachable hr hcl hal h
   refine ⟨fun i hi ho => hs.files_on_disk _ (hs.open_active i hi ho), ?_, hs.rollup_on_disk, hs.held_mapped⟩
   intro j hj hp f hf
   have hb := hs.jobs j hj
@@ -132,36 +137,36 @@ theorem no_needed_file_deleted {cfg : Cfg} {v0 f0 : Nat} {s : St} (hr : cfg.rech
 
 /-- The only step that removes a table from the directory (`deleteSST` of deleteObsoleteFiles)
 removes a table no open snapshot lists, that is no pending output and that no rollup needs. -/
-theorem delete_only_unneeded {cfg : Cfg} {v0 f0 : Nat} {s : St} (hr : cfg.recheck = true) (hcl : cfg.cloneLocked = true)
+theorem delete_only_unneeded {cfg : Cfg} {v0 f0 : Nat} {s : St} (hr : cfg.recheck = true) (hcl : cfg.cloneLocked = true) (hal : cfg.allocLocked = true)
     (h : Reachable cfg v0 f0 s) (j : Nat) (hj : j < s.nJob) (hpc : (s.job j).pc = .doEvicted)
     (f : Nat) (rest : List Nat) (htodo : (s.job j).todoDel = f :: rest) :
     jstep cfg s j = some (doRemove s j f rest) ∧
     (∀ i, i < s.nSnap → (s.snap i).st = .opened → f ∉ (s.ver (s.snap i).ver).nos) ∧
     f ∉ s.pending ∧ f ∉ (s.ver s.cur).rollup := by
-  have hs := safe_reachable hr hcl h
+  have hs := safe_reachable hr hcl hal h
   have hd := (hs.jobs j hj).deleting (by rw [hpc]; rfl) f (by simp [htodo])
   refine ⟨by simp [jstep, hj, hpc, htodo], ?_, hd.1.2.1, hd.2⟩
   intro i hi ho
   exact hd.1.2.2 _ (hs.open_active i hi ho)
 
 /-- `cache.Evict` in deleteObsoleteFiles closes only readers no open snapshot retains. -/
-theorem evict_only_unneeded {cfg : Cfg} {v0 f0 : Nat} {s : St} (hr : cfg.recheck = true) (hcl : cfg.cloneLocked = true)
+theorem evict_only_unneeded {cfg : Cfg} {v0 f0 : Nat} {s : St} (hr : cfg.recheck = true) (hcl : cfg.cloneLocked = true) (hal : cfg.allocLocked = true)
     (h : Reachable cfg v0 f0 s) (j : Nat) (hj : j < s.nJob)
     (hpc : (s.job j).pc = .doRolled ∨ (s.job j).pc = .doRemoved)
     (f : Nat) (rest : List Nat) (htodo : (s.job j).todoDel = f :: rest) :
     jstep cfg s j = some (doEvict s j f) ∧
     (∀ i, i < s.nSnap → (s.snap i).st = .opened → f ∉ (s.snap i).held) := by
-  have hs := safe_reachable hr hcl h
+  have hs := safe_reachable hr hcl hal h
   have hd := (hs.jobs j hj).deleting (by rcases hpc with hpc | hpc <;> rw [hpc] <;> rfl) f (by simp [htodo])
   refine ⟨by rcases hpc with hpc | hpc <;> simp [jstep, hj, hpc, htodo], ?_⟩
   intro i hi ho hmem
   exact hd.1.2.2 _ (hs.open_active i hi ho) (hs.held_files i hi f hmem)
 
 /-- `storeCache.Cleanup` closes only readers nobody retains. -/
-theorem cleanup_only_unreferenced {cfg : Cfg} {v0 f0 : Nat} {s s' : St} (hr : cfg.recheck = true) (hcl : cfg.cloneLocked = true)
+theorem cleanup_only_unreferenced {cfg : Cfg} {v0 f0 : Nat} {s s' : St} (hr : cfg.recheck = true) (hcl : cfg.cloneLocked = true) (hal : cfg.allocLocked = true)
     (h : Reachable cfg v0 f0 s) (fs : List Nat) (hst : step cfg s (.cleanup fs) = some s') :
     ∀ f ∈ fs, ∀ i, i < s.nSnap → f ∉ (s.snap i).held := by
-  have hs := safe_reachable hr hcl h
+  have hs := safe_reachable hr hcl hal h
   intro f hf i hi hmem
   simp only [step] at hst
   split at hst
@@ -178,37 +183,37 @@ theorem cleanup_only_unreferenced {cfg : Cfg} {v0 f0 : Nat} {s s' : St} (hr : cf
 content its version had when the snapshot was taken (= at any earlier state `s` in which it was
 already open), whatever flushes, compactions, rollup commits, file deletions and cache cleanups
 ran in between. -/
-theorem snapshot_stable {cfg : Cfg} {v0 f0 : Nat} {s s' : St} {acts : List Act} (hr : cfg.recheck = true) (hcl : cfg.cloneLocked = true)
+theorem snapshot_stable {cfg : Cfg} {v0 f0 : Nat} {s s' : St} {acts : List Act} (hr : cfg.recheck = true) (hcl : cfg.cloneLocked = true) (hal : cfg.allocLocked = true)
     (h : Reachable cfg v0 f0 s) (hrun : run cfg s acts = some s')
     (i : Nat) (hi : i < s.nSnap) (ho' : (s'.snap i).st = .opened) (k : Nat) :
     readKey s' i k = readKey s i k ∧
     readKey s i k = some (contentOf (s.ver (s.snap i).ver) s.content k) := by
-  have hs := safe_reachable hr hcl h
-  have hs' := safe_reachable hr hcl (reachable_run h hrun)
-  have hf := frame_run hrun
+  have hs := safe_reachable hr hcl hal h
+  have hs' := safe_reachable hr hcl hal (reachable_run h hrun)
+  have hf := frame_run hr hcl hal (safe_reachable hr hcl hal h) hrun
   have ho := (hf.snap_open i hi ho').1
   have hi' : i < s'.nSnap := Nat.lt_of_lt_of_le hi hf.nSnap_le
   rw [readKey_safe hs hi ho k, readKey_safe hs' hi' ho' k, contentOf_frame hs hf hi k]
   exact ⟨rfl, rfl⟩
 
 /-- a reader retained at `s` by a snapshot that is still open at `s'` is still mapped at `s'` -/
-theorem held_readers_stay_mapped {cfg : Cfg} {v0 f0 : Nat} {s s' : St} {acts : List Act} (hr : cfg.recheck = true) (hcl : cfg.cloneLocked = true)
+theorem held_readers_stay_mapped {cfg : Cfg} {v0 f0 : Nat} {s s' : St} {acts : List Act} (hr : cfg.recheck = true) (hcl : cfg.cloneLocked = true) (hal : cfg.allocLocked = true)
     (h : Reachable cfg v0 f0 s) (hrun : run cfg s acts = some s')
     (i : Nat) (hi : i < s.nSnap) (ho' : (s'.snap i).st = .opened) :
     ∀ f ∈ (s.snap i).held, s'.cref f ≠ none := by
-  have hs' := safe_reachable hr hcl (reachable_run h hrun)
-  have hf := frame_run hrun
+  have hs' := safe_reachable hr hcl hal (reachable_run h hrun)
+  have hf := frame_run hr hcl hal (safe_reachable hr hcl hal h) hrun
   intro f hmem
   exact hs'.held_mapped i (Nat.lt_of_lt_of_le hi hf.nSnap_le) ho' f ((hf.snap_open i hi ho').2 f hmem)
 
 /-- the tables of an open snapshot's version stay in the directory for as long as it is open -/
-theorem snapshot_files_stay {cfg : Cfg} {v0 f0 : Nat} {s s' : St} {acts : List Act} (hr : cfg.recheck = true) (hcl : cfg.cloneLocked = true)
+theorem snapshot_files_stay {cfg : Cfg} {v0 f0 : Nat} {s s' : St} {acts : List Act} (hr : cfg.recheck = true) (hcl : cfg.cloneLocked = true) (hal : cfg.allocLocked = true)
     (h : Reachable cfg v0 f0 s) (hrun : run cfg s acts = some s')
     (i : Nat) (hi : i < s.nSnap) (ho' : (s'.snap i).st = .opened) :
     ∀ f ∈ (s.ver (s.snap i).ver).nos, f ∈ s'.disk := by
-  have hs := safe_reachable hr hcl h
-  have hs' := safe_reachable hr hcl (reachable_run h hrun)
-  have hf := frame_run hrun
+  have hs := safe_reachable hr hcl hal h
+  have hs' := safe_reachable hr hcl hal (reachable_run h hrun)
+  have hf := frame_run hr hcl hal (safe_reachable hr hcl hal h) hrun
   have hi' : i < s'.nSnap := Nat.lt_of_lt_of_le hi hf.nSnap_le
   intro f hmem
   have := hs'.files_on_disk _ (hs'.open_active i hi' ho') f
@@ -218,9 +223,9 @@ theorem snapshot_files_stay {cfg : Cfg} {v0 f0 : Nat} {s s' : St} {acts : List A
 /-- The current version is the replay of every edit log installed so far (`hist`, newest first):
 commits are never lost or re-ordered (they are serialised by the version-set mutex and each
 clones the version that is current at its swap). -/
-theorem current_is_replay {cfg : Cfg} {v0 f0 : Nat} {s : St} (hr : cfg.recheck = true) (hcl : cfg.cloneLocked = true)
+theorem current_is_replay {cfg : Cfg} {v0 f0 : Nat} {s : St} (hr : cfg.recheck = true) (hcl : cfg.cloneLocked = true) (hal : cfg.allocLocked = true)
     (h : Reachable cfg v0 f0 s) : s.ver s.cur = s.hist.foldr (fun e v => applyEdit v e) {} :=
-  (safe_reachable hr hcl h).history
+  (safe_reachable hr hcl hal h).history
 
 /-- the swap step of a commit records its edit log -/
 theorem swap_records_commit (s : St) (j : Nat) :
@@ -229,13 +234,13 @@ theorem swap_records_commit (s : St) (j : Nat) :
 /-- A reader that starts after a commit completed (its edit log `e` is in the history when the
 reader takes its snapshot) gets a version that lists every table `e` added, unless a later
 installed edit log (a compaction that consumed it) deleted that table. -/
-theorem later_reader_sees_commit {cfg : Cfg} {v0 f0 : Nat} {s s' : St} (hr : cfg.recheck = true) (hcl : cfg.cloneLocked = true)
+theorem later_reader_sees_commit {cfg : Cfg} {v0 f0 : Nat} {s s' : St} (hr : cfg.recheck = true) (hcl : cfg.cloneLocked = true) (hal : cfg.allocLocked = true)
     (h : Reachable cfg v0 f0 s) (hst : step cfg s .acquire = some s')
     (later earlier : List Edit) (e : Edit) (hh : s.hist = later ++ e :: earlier)
     (m : FileMeta) (hm : m ∈ e.adds) (hnd : ∀ e' ∈ later, (m.level, m.no) ∉ e'.dels) :
     (s'.snap s.nSnap).st = .opened ∧ (s'.snap s.nSnap).ver = s.cur ∧
     m ∈ (s'.ver (s'.snap s.nSnap).ver).files := by
-  have hs := safe_reachable hr hcl h
+  have hs := safe_reachable hr hcl hal h
   simp only [step] at hst
   cases hst
   refine ⟨by simp [snapAcquire], by simp [snapAcquire], ?_⟩
@@ -245,32 +250,33 @@ theorem later_reader_sees_commit {cfg : Cfg} {v0 f0 : Nat} {s s' : St} (hr : cfg
   exact mem_replay hm hnd
 
 /-- once a commit's version swap is done its edit log is in the history … -/
-theorem commit_recorded {cfg : Cfg} {v0 f0 : Nat} {s : St} (hr : cfg.recheck = true) (hcl : cfg.cloneLocked = true)
+theorem commit_recorded {cfg : Cfg} {v0 f0 : Nat} {s : St} (hr : cfg.recheck = true) (hcl : cfg.cloneLocked = true) (hal : cfg.allocLocked = true)
     (h : Reachable cfg v0 f0 s) (j : Nat) (hj : j < s.nJob) (hp : postSwap (s.job j).pc = true) :
     (s.job j).edit ∈ s.hist :=
-  ((safe_reachable hr hcl h).jobs j hj).recorded hp
+  ((safe_reachable hr hcl hal h).jobs j hj).recorded hp
 
-/-- … and stays there along every schedule (any variant) -/
-theorem installed_commit_stays {cfg : Cfg} {s s' : St} {acts : List Act} (hrun : run cfg s acts = some s')
-    (e : Edit) (he : e ∈ s.hist) : e ∈ s'.hist :=
-  (frame_run hrun).hist_grows e he
+/-- … and stays there along every schedule -/
+theorem installed_commit_stays {cfg : Cfg} {v0 f0 : Nat} {s s' : St} {acts : List Act} (hr : cfg.recheck = true)
+    (hcl : cfg.cloneLocked = true) (hal : cfg.allocLocked = true) (h : Reachable cfg v0 f0 s)
+    (hrun : run cfg s acts = some s') (e : Edit) (he : e ∈ s.hist) : e ∈ s'.hist :=
+  (frame_run hr hcl hal (safe_reachable hr hcl hal h) hrun).hist_grows e he
 
 /-- ALL interleavings of any number of concurrent committers (in particular two overlapping
 flush / compaction / rollup commits on the family): every commit whose swap completed before a
 reader starts — i.e. every `e` in the history — is visible to that reader: each table `e` added is
 listed by the reader's version unless an edit installed after `e` deleted it. -/
 theorem completed_commits_visible {cfg : Cfg} {v0 f0 : Nat} {s s' : St} (hr : cfg.recheck = true)
-    (hcl : cfg.cloneLocked = true) (h : Reachable cfg v0 f0 s) (hst : step cfg s .acquire = some s')
+    (hcl : cfg.cloneLocked = true) (hal : cfg.allocLocked = true) (h : Reachable cfg v0 f0 s) (hst : step cfg s .acquire = some s')
     (e : Edit) (he : e ∈ s.hist) :
     ∃ later earlier, s.hist = later ++ e :: earlier ∧
       ∀ m ∈ e.adds, (∀ e' ∈ later, (m.level, m.no) ∉ e'.dels) → m ∈ (s'.ver (s'.snap s.nSnap).ver).files := by
   obtain ⟨later, earlier, hh⟩ := List.append_of_mem he
-  exact ⟨later, earlier, hh, fun m hm hnd => (later_reader_sees_commit hr hcl h hst later earlier e hh m hm hnd).2.2⟩
+  exact ⟨later, earlier, hh, fun m hm hnd => (later_reader_sees_commit hr hcl hal h hst later earlier e hh m hm hnd).2.2⟩
 
 /-- two committers `j ≠ k` that both finished their swap: a reader starting now sees the tables
 of both (flushes add, never delete; nothing installed since deleted them) -/
 theorem two_committers_both_visible {cfg : Cfg} {v0 f0 : Nat} {s s' : St} (hr : cfg.recheck = true)
-    (hcl : cfg.cloneLocked = true) (h : Reachable cfg v0 f0 s) (hst : step cfg s .acquire = some s')
+    (hcl : cfg.cloneLocked = true) (hal : cfg.allocLocked = true) (h : Reachable cfg v0 f0 s) (hst : step cfg s .acquire = some s')
     (j k : Nat) (hj : j < s.nJob) (hk : k < s.nJob)
     (hpj : postSwap (s.job j).pc = true) (hpk : postSwap (s.job k).pc = true)
     (hnodel : ∀ e' ∈ s.hist, e'.dels = []) :
@@ -278,12 +284,12 @@ theorem two_committers_both_visible {cfg : Cfg} {v0 f0 : Nat} {s s' : St} (hr : 
     (∀ m ∈ (s.job k).edit.adds, m ∈ (s'.ver (s'.snap s.nSnap).ver).files) := by
   have key : ∀ e ∈ s.hist, ∀ m ∈ e.adds, m ∈ (s'.ver (s'.snap s.nSnap).ver).files := by
     intro e he m hm
-    obtain ⟨later, earlier, hh, hv⟩ := completed_commits_visible hr hcl h hst e he
+    obtain ⟨later, earlier, hh, hv⟩ := completed_commits_visible hr hcl hal h hst e he
     apply hv m hm
     intro e' he'
     have := hnodel e' (by rw [hh]; simp [he'])
     simp [this]
-  exact ⟨key _ (commit_recorded hr hcl h j hj hpj), key _ (commit_recorded hr hcl h k hk hpk)⟩
+  exact ⟨key _ (commit_recorded hr hcl hal h j hj hpj), key _ (commit_recorded hr hcl hal h k hk hpk)⟩
 
 /-! ### content level across compactions — for ANY merger satisfying the contract `MergerOk`
 
@@ -296,9 +302,9 @@ is that a compaction does not change what the CURRENT version shows. -/
 tokens of the flush commits whose version swap is done (`s.flushed`), however many compactions
 (merge or trivial move), rollup commits and overlapping committers ran. -/
 theorem current_shows_flushed_tokens {cfg : Cfg} {v0 f0 : Nat} {s : St} (hm : MergerOk cfg.merge)
-    (hr : cfg.recheck = true) (hcl : cfg.cloneLocked = true) (h : Reachable cfg v0 f0 s) (k : Nat) :
+    (hr : cfg.recheck = true) (hcl : cfg.cloneLocked = true) (hal : cfg.allocLocked = true) (h : Reachable cfg v0 f0 s) (k : Nat) :
     (vTokens (s.ver s.cur).files s.content k).Perm (s.flushed.flatMap (fun f => tokensAt (s.content f) k)) :=
-  (tok_reachable hm hr hcl h).tokens k
+  (tok_reachable hm hr hcl hal h).tokens k
 
 /-- a flush commit's swap records its table as flushed -/
 theorem swap_records_flush (s : St) (j : Nat) (hk : (s.job j).kind = .flush) :
@@ -308,7 +314,7 @@ theorem swap_records_flush (s : St) (j : Nat) (hk : (s.job j).kind = .flush) :
 /-- A reader that starts later sees, for every key, exactly the tokens of all flush commits that
 completed (swapped) before it started — compactions in between notwithstanding. -/
 theorem later_reader_sees_tokens {cfg : Cfg} {v0 f0 : Nat} {s s' : St} (hm : MergerOk cfg.merge)
-    (hr : cfg.recheck = true) (hcl : cfg.cloneLocked = true) (h : Reachable cfg v0 f0 s)
+    (hr : cfg.recheck = true) (hcl : cfg.cloneLocked = true) (hal : cfg.allocLocked = true) (h : Reachable cfg v0 f0 s)
     (hst : step cfg s .acquire = some s') (k : Nat) :
     (vTokens (s'.ver (s'.snap s.nSnap).ver).files s'.content k).Perm
       (s.flushed.flatMap (fun f => tokensAt (s.content f) k)) := by
@@ -317,17 +323,17 @@ theorem later_reader_sees_tokens {cfg : Cfg} {v0 f0 : Nat} {s s' : St} (hm : Mer
   have : vTokens ((snapAcquire s none).ver ((snapAcquire s none).snap s.nSnap).ver).files (snapAcquire s none).content k =
       vTokens (s.ver s.cur).files s.content k := by simp [snapAcquire]
   rw [this]
-  exact current_shows_flushed_tokens hm hr hcl h k
+  exact current_shows_flushed_tokens hm hr hcl hal h k
 
 /-- the version swap of a compaction (merge or trivial move) leaves every key's tokens unchanged -/
 theorem compaction_swap_keeps_tokens {cfg : Cfg} {v0 f0 : Nat} {s : St} (hm : MergerOk cfg.merge)
-    (hr : cfg.recheck = true) (hcl : cfg.cloneLocked = true) (h : Reachable cfg v0 f0 s)
+    (hr : cfg.recheck = true) (hcl : cfg.cloneLocked = true) (hal : cfg.allocLocked = true) (h : Reachable cfg v0 f0 s)
     (j : Nat) (hj : j < s.nJob) (hpc : (s.job j).pc = .cSnapped) (hk : (s.job j).kind = .compact) (k : Nat) :
     (vTokens ((jSwap s j).ver (jSwap s j).cur).files (jSwap s j).content k).Perm
       (vTokens (s.ver s.cur).files s.content k) := by
   have hstep : step cfg s (.jstep j) = some (jSwap s j) := by simp [step, jstep, hj, hpc]
-  have h1 := current_shows_flushed_tokens hm hr hcl (Reachable.step _ h hstep) k
-  have h2 := current_shows_flushed_tokens hm hr hcl h k
+  have h1 := current_shows_flushed_tokens hm hr hcl hal (Reachable.step _ h hstep) k
+  have h2 := current_shows_flushed_tokens hm hr hcl hal h k
   have hfl : (jSwap s j).flushed = s.flushed := by simp [jSwap, noteFlush, hk, swapVersion, setPc, St.setJob]
   have hc : (jSwap s j).content = s.content := rfl
   rw [hfl, hc] at h1
@@ -345,13 +351,61 @@ shows for a key is exactly what the completed flush commits wrote -/
 theorem current_source_shows_flushed_tokens {merge : List Content → Content} (hm : MergerOk merge)
     {t : Nat} {ro : Bool} {v0 f0 : Nat} {s : St} (h : Reachable (codeCfgWith merge t ro) v0 f0 s) (k : Nat) :
     (vTokens (s.ver s.cur).files s.content k).Perm (s.flushed.flatMap (fun f => tokensAt (s.content f) k)) :=
-  current_shows_flushed_tokens (cfg := codeCfgWith merge t ro) hm source_rechecks source_clone_locked h k
+  current_shows_flushed_tokens (cfg := codeCfgWith merge t ro) hm source_rechecks source_clone_locked source_alloc_locked h k
 
 /-- the table numbers of a version are pairwise distinct; at most one compaction runs at a time -/
 theorem version_tables_distinct {cfg : Cfg} {v0 f0 : Nat} {s : St} (hm : MergerOk cfg.merge)
-    (hr : cfg.recheck = true) (hcl : cfg.cloneLocked = true) (h : Reachable cfg v0 f0 s) (v : Nat) :
+    (hr : cfg.recheck = true) (hcl : cfg.cloneLocked = true) (hal : cfg.allocLocked = true) (h : Reachable cfg v0 f0 s) (v : Nat) :
     (s.ver v).nos.Nodup :=
-  (tok_reachable hm hr hcl h).nodup v
+  (tok_reachable hm hr hcl hal h).nodup v
+
+/-! ### table numbers and rollup marks -/
+
+/-- Over all schedules (allocation under the version-set mutex): the table numbers handed out to
+different jobs are pairwise distinct — no two builders ever own one file. -/
+theorem allocated_numbers_distinct {cfg : Cfg} {v0 f0 : Nat} {s : St} (hr : cfg.recheck = true)
+    (hcl : cfg.cloneLocked = true) (hal : cfg.allocLocked = true) (h : Reachable cfg v0 f0 s)
+    (j k : Nat) (hj : j < s.nJob) (hk : k < s.nJob) (hjk : j ≠ k) :
+    ∀ f ∈ outNo (s.job j), f ∉ outNo (s.job k) :=
+  (safe_reachable hr hcl hal h).outs_distinct j k hj hk hjk
+
+/-- … and an allocated number that is not installed yet is listed by no version -/
+theorem allocated_number_unlisted {cfg : Cfg} {v0 f0 : Nat} {s : St} (hm : MergerOk cfg.merge) (hr : cfg.recheck = true)
+    (hcl : cfg.cloneLocked = true) (hal : cfg.allocLocked = true) (h : Reachable cfg v0 f0 s)
+    (j : Nat) (hj : j < s.nJob) (hp : outHidden (s.job j).pc = true) :
+    ∀ f ∈ outNo (s.job j), ∀ v, f ∉ (s.ver v).nos :=
+  ((tok_reachable hm hr hcl hal h).jobs j hj).hidden hp
+
+/-- A pending rollup mark (file `f` in the current version's rollup set — the record that a rollup
+of `f` is still to be done, and what keeps `f` alive once it is compacted away) survives every step
+except the version swap of a rollup-done commit that names `f`: no flush, compaction, cleanup,
+deleteObsoleteFiles, and no rollup job whose targets were skipped or failed (that job commits
+nothing: it is the model's `delObs` job) removes it. Together with `no_needed_file_deleted`
+(every marked file is in the directory) this is "a file a pending rollup still needs is never deleted". -/
+theorem rollup_mark_removed_only_by_rollup_done {cfg : Cfg} {v0 f0 : Nat} {s s' : St} {a : Act}
+    (hr : cfg.recheck = true) (hcl : cfg.cloneLocked = true) (hal : cfg.allocLocked = true)
+    (h : Reachable cfg v0 f0 s) (hst : step cfg s a = some s') (f : Nat) (hf : f ∈ (s.ver s.cur).rollup) :
+    f ∈ (s'.ver s'.cur).rollup ∨
+    ∃ j, a = .jstep j ∧ j < s.nJob ∧ (s.job j).kind = .rollupDone ∧ (s.job j).pc = .cSnapped ∧
+      f ∈ (s.job j).edit.rollDel := by
+  have hs := safe_reachable hr hcl hal h
+  have hfr := frame_step (fun k hk hp => (hs.jobs k hk).nfread hp) hst
+  rcases cur_step hst with hc | ⟨j, rfl, hj, hpc, rfl⟩
+  · left; rw [hc, hfr.ver_eq _ hs.ver_bound.1]; exact hf
+  · have hb := hs.jobs j hj
+    have hbuilt := (hb.built hpc).2
+    have hcur : (jSwap s j).ver (jSwap s j).cur = s.ver (s.job j).newVer := rfl
+    by_cases hdel : f ∈ (s.job j).edit.rollDel
+    · right
+      refine ⟨j, rfl, hj, ?_, hpc, hdel⟩
+      apply Classical.byContradiction
+      intro hk
+      have := hb.rolldel (by rw [hpc]; rfl) hk
+      rw [this] at hdel; cases hdel
+    · left
+      rw [hcur, hbuilt]
+      simp only [applyEdit, List.mem_append, List.mem_filter]
+      left; exact ⟨hf, by simpa using hdel⟩
 
 /-! ### reader-cache cleanup as a nondeterministic step (LRU order / TTL not modelled) -/
 
@@ -376,10 +430,10 @@ theorem cleanup_enabled_iff (cfg : Cfg) (s : St) (fs : List Nat) :
 /-- whichever unreferenced entries a cleanup closes, every reader retained by an open snapshot
 stays mapped, and the state stays `Safe` -/
 theorem cleanup_any_choice_keeps_held_readers {cfg : Cfg} {v0 f0 : Nat} {s s' : St} (hr : cfg.recheck = true)
-    (hcl : cfg.cloneLocked = true) (h : Reachable cfg v0 f0 s) (fs : List Nat)
+    (hcl : cfg.cloneLocked = true) (hal : cfg.allocLocked = true) (h : Reachable cfg v0 f0 s) (fs : List Nat)
     (hst : step cfg s (.cleanup fs) = some s') :
     Safe s' ∧ ∀ i, i < s.nSnap → (s.snap i).st = .opened → ∀ f ∈ (s.snap i).held, s'.cref f ≠ none := by
-  have hs' := safe_step hr hcl (safe_reachable hr hcl h) hst
+  have hs' := safe_step hr hcl hal (safe_reachable hr hcl hal h) hst
   refine ⟨hs', ?_⟩
   intro i hi ho f hf
   have hsnap : s'.snap = s.snap ∧ s'.nSnap = s.nSnap := by
@@ -536,6 +590,32 @@ theorem later_reader_misses_commit :
     intro heq
     rw [hcur, heq] at hnot
     exact hnot (by simpa [List.contains_eq_mem] using hrep)
+
+/-! #### table numbers handed out without the version-set mutex (variant `allocLocked = false`) -/
+
+def unlockedAllocCfg : Cfg := { recheck := true, allocLocked := false, threshold := 2, rollupOn := false }
+
+/-- commit C (job 0) has read the counter and is writing the manifest; flushes A and B (jobs 1, 2)
+allocate inside that window; C stores the counter back; flush D (job 3) allocates next -/
+def duplicateNumberActs : List Act :=
+  [.spawn .flush [(1, [10])], .spawn .flush [(1, [11])], .spawn .flush [(1, [12])], .spawn .flush [(1, [13])],
+   .jstep 0, .jstep 0, .jstep 0, .jstep 1, .jstep 2] ++ List.replicate 9 (.jstep 0) ++ [.jstep 3]
+
+/-- without the mutex in `NextFileNumber` two builders end up owning the same table number -/
+theorem duplicate_file_number :
+    ∃ s, Reachable unlockedAllocCfg 0 2 s ∧ outNo (s.job 2) = [4] ∧ outNo (s.job 3) = [4] ∧
+      (s.job 2).pc = .allocd ∧ (s.job 3).pc = .allocd := by
+  have h : (match run unlockedAllocCfg (St.init 0 2) duplicateNumberActs with
+      | some s => outNo (s.job 2) == [4] && outNo (s.job 3) == [4] && decide ((s.job 2).pc = .allocd) &&
+          decide ((s.job 3).pc = .allocd)
+      | none => false) = true := by decide
+  cases hr : run unlockedAllocCfg (St.init 0 2) duplicateNumberActs with
+  | none => rw [hr] at h; cases h
+  | some s =>
+    rw [hr] at h
+    simp only [Bool.and_eq_true, decide_eq_true_eq, beq_iff_eq] at h
+    obtain ⟨⟨⟨a, b⟩, c⟩, d⟩ := h
+    exact ⟨s, reachable_run Reachable.init hr, a, b, c, d⟩
 
 end Neg
 
